@@ -119,11 +119,28 @@ func mStreamClose(s *yamux.Stream) error { return nil }
 // ---------- streamer pair (the real pumps are C07's subject) ----------
 type vStreamer struct {
 	out, in chan *plugin.ConnInfo
+	quit    chan struct{}
+	closed  bool
 }
 
-func (s *vStreamer) Send(i *plugin.ConnInfo) error    { s.out <- i; return nil }
-func (s *vStreamer) Recv() (*plugin.ConnInfo, error) { return <-s.in, nil }
-func (s *vStreamer) Close()                          {}
+func (s *vStreamer) Send(i *plugin.ConnInfo) error { s.out <- i; return nil }
+func (s *vStreamer) Recv() (*plugin.ConnInfo, error) {
+	if s.quit == nil {
+		return <-s.in, nil
+	}
+	select {
+	case m := <-s.in:
+		return m, nil
+	case <-s.quit:
+		return nil, io.EOF
+	}
+}
+func (s *vStreamer) Close() {
+	if s.quit != nil && !s.closed {
+		s.closed = true
+		close(s.quit)
+	}
+}
 
 // ---------- logger ----------
 type vLogger struct{}
@@ -221,5 +238,96 @@ func harnessC08() {
 	vAssert(mainGot == 0, "C08: a brokered stream is never handed to the main listener")
 	vAssert(!sessionClosed, "C08: the session stays open")
 	vCover("established")
+	vDone()
+}
+
+
+// C09, gRPC broker with multiplexing: a history of <= 2 dials whose IDs (not assumed distinct) nobody accepts, then -
+// after every timer of the history has expired - a fresh accept/dial pair on another ID must still succeed, and
+// closing both brokers ends their goroutines.
+func harnessC09mux() {
+	mainLn = &vListener{q: make(chan net.Conn, 4)}
+	lg := vLogger{}
+	sm := grpcmux.NewGRPCServerMuxer(lg, mainLn)
+	cm, err := grpcmux.NewGRPCClientMuxer(lg, vAddr{})
+	vAssume(err == nil)
+	h2p, p2h := make(chan *plugin.ConnInfo, 8), make(chan *plugin.ConnInfo, 8)
+	hs := &vStreamer{out: h2p, in: p2h, quit: make(chan struct{})}
+	ps := &vStreamer{out: p2h, in: h2p, quit: make(chan struct{})}
+	hb := newGRPCBroker(hs, nil, UnixSocketConfig{}, nil, cm)
+	pb := newGRPCBroker(ps, nil, UnixSocketConfig{}, nil, sm)
+	hRun, pRun := false, false
+	go func() { vDaemon(); hb.Run(); hRun = true }()
+	go func() { vDaemon(); pb.Run(); pRun = true }()
+	go func() {
+		vDaemon()
+		for {
+			if _, err := sm.Accept(); err != nil {
+				return
+			}
+		}
+	}()
+
+	x1, x2 := vNondetU32("x1"), vNondetU32("x2")
+	t1, t2 := vNondetTime("t1"), vNondetTime("t2")
+	vAssume(t1 <= t2)
+	n := 1 + vChoice(2)
+	last := t1
+	done1, done2 := make(chan struct{}), make(chan struct{})
+	go func() {
+		vSleepUntil(t1)
+		t0 := vNow()
+		_, err := hb.muxDial(x1)("", 0)
+		vAssert(err != nil, "C09: a dial nobody accepts returns an error")
+		vAssert(vNow()-t0 <= int64(n)*6*sec, "C09: an unmatched dial returns within the pending window (multiplexed dials are serialised: one window per outstanding dial)")
+		close(done1)
+	}()
+	if n == 2 {
+		last = t2
+		go func() {
+			vSleepUntil(t2)
+			t0 := vNow()
+			_, err := hb.muxDial(x2)("", 0)
+			vAssert(err != nil, "C09: a second dial nobody accepts returns an error")
+			vAssert(vNow()-t0 <= int64(n)*6*sec, "C09: an unmatched dial returns within the pending window (multiplexed dials are serialised: one window per outstanding dial)")
+			close(done2)
+		}()
+	} else {
+		close(done2)
+	}
+	<-done1
+	<-done2
+	vCover("history-done")
+
+	f := vNondetU32("f")
+	vAssume(f != x1 && f != x2)
+	vSleepUntil(last + 12*sec)
+	var got, dialed net.Conn
+	var aerr, derr error
+	doneA := make(chan struct{})
+	go func() {
+		ln, err := pb.Accept(f)
+		if err == nil {
+			got, err = ln.Accept()
+		}
+		aerr = err
+		close(doneA)
+	}()
+	dialed, derr = hb.muxDial(f)("", 0)
+	vAssert(derr == nil, "C09: after the history a fresh dial still succeeds")
+	select {
+	case <-doneA:
+	case <-time.After(6 * time.Second):
+		vAssert(false, "C09: after the history a fresh accept still receives its stream")
+	}
+	vAssert(aerr == nil, "C09: after the history a fresh accept still succeeds")
+	vAssert(got.(*yamux.Stream) == strmPeer[dialed.(*yamux.Stream)], "C09: the fresh pair is connected")
+	vCover("fresh-pair")
+
+	hb.Close()
+	pb.Close()
+	vSleepUntil(vNow() + sec)
+	vAssert(hRun && pRun, "C09: closing the brokers ends their Run goroutines")
+	vCover("closed")
 	vDone()
 }
